@@ -12,7 +12,12 @@
       content it waited with; Rollback r likewise, and r no longer waits;
     - a direct Set of a committed parent commits the result at once;
     - a restart forgets everything that waits and nothing that is committed;
-    - EVERY read at a committed root returns exactly its content.
+    - EVERY read at a committed root returns exactly its content;
+    - a read at any other root returns nothing, or the content THAT root denotes
+      (a pending tree is read under its own hash; without the key prefix the
+      hash of a stored sub-tree resolves as well) — never anything else; in the
+      [strict] configuration (EnableMavlPrefix: only saved roots resolve) a read
+      at a root that is neither committed nor waiting returns nothing.
 
     Content [None] = unknown (the update was computed from a parent the
     specification knows nothing about, e.g. a foreign hash): no obligation. *)
@@ -35,10 +40,13 @@ Definition a_del {A} (l : list (tok * A)) (t : tok) : list (tok * A) :=
 Definition a_put {A} (l : list (tok * A)) (t : tok) (a : A) : list (tok * A) :=
   (t, a) :: a_del l t.
 
-Record sst := mk_sst { committed : list (tok * content); waiting : list (tok * content) }.
+(** [denotes]: the content of every root the specification has seen computed (kept
+    for ever: a hash denotes one content). *)
+Record sst := mk_sst { committed : list (tok * content); waiting : list (tok * content);
+                       denotes : list (tok * smap) }.
 
 (** both spellings of the empty root are committed and empty *)
-Definition sst0 : sst := mk_sst [(0%N, Some []); (1%N, Some [])] [].
+Definition sst0 : sst := mk_sst [(0%N, Some []); (1%N, Some [])] [] [(0%N, []); (1%N, [])].
 
 (** what an update of [p] starts from: the committed content, else the waiting one *)
 Definition known (s : sst) (p : tok) : content :=
@@ -65,6 +73,7 @@ Inductive sop :=
 | SRollback (r : tok)
 | SGet (r : tok) (ks : list bytes)
 | SRestart
+| SForeign (kvs : list (bytes * bytes))   (* root of these writes on an unrelated empty store *)
 | SOther.                          (* an operation the specification says nothing about *)
 
 Inductive sout :=
@@ -91,24 +100,33 @@ Fixpoint vals_eqb (a b : list (option bytes)) : bool :=
   | _, _ => false
   end.
 
+Definition learn (d : list (tok * smap)) (t : tok) (c : content) : list (tok * smap) :=
+  match c, a_get d t with
+  | Some m, None => (t, m) :: d
+  | _, _ => d
+  end.
+
+Definition all_none (vs : list (option bytes)) : bool :=
+  forallb (fun v => match canon v with None => true | Some _ => false end) vs.
+
 (** one step: the new specification state and whether the reply is allowed *)
-Definition sstep (s : sst) (o : sop) (r : sout) : sst * bool :=
+Definition sstep (strict : bool) (s : sst) (o : sop) (r : sout) : sst * bool :=
   match o, r with
   | SMemSet p kvs, SRoot t =>
       let c := upd (known s p) kvs in
       let old := match a_get (waiting s) t with Some c0 => c0 | None => None end in
-      (mk_sst (committed s) (a_put (waiting s) t (merge c old)), true)
+      (mk_sst (committed s) (a_put (waiting s) t (merge c old)) (learn (denotes s) t c), true)
   | SMemSet _ _, _ => (s, true)
   | SSet p kvs, SRoot t =>
       let c := match a_get (committed s) p with Some c0 => upd c0 kvs | None => None end in
       let old := match a_get (committed s) t with Some c0 => c0 | None => None end in
-      (mk_sst (a_put (committed s) t (merge old c)) (waiting s), true)
+      (mk_sst (a_put (committed s) t (merge old c)) (waiting s) (learn (denotes s) t c), true)
   | SSet _ _, _ => (s, true)
   | SCommit r0, SRoot t =>
       match a_get (waiting s) r0 with
       | Some c =>
           let old := match a_get (committed s) r0 with Some c0 => c0 | None => None end in
-          (mk_sst (a_put (committed s) r0 (merge old c)) (a_del (waiting s) r0), N.eqb t r0)
+          (mk_sst (a_put (committed s) r0 (merge old c)) (a_del (waiting s) r0) (denotes s), N.eqb t r0)
       | None => (s, false)                       (* acknowledged a commit of nothing *)
       end
   | SCommit r0, SNotFound =>
@@ -116,7 +134,7 @@ Definition sstep (s : sst) (o : sop) (r : sout) : sst * bool :=
   | SCommit _, _ => (s, false)
   | SRollback r0, SRoot t =>
       match a_get (waiting s) r0 with
-      | Some _ => (mk_sst (committed s) (a_del (waiting s) r0), N.eqb t r0)
+      | Some _ => (mk_sst (committed s) (a_del (waiting s) r0) (denotes s), N.eqb t r0)
       | None => (s, false)
       end
   | SRollback r0, SNotFound =>
@@ -125,9 +143,19 @@ Definition sstep (s : sst) (o : sop) (r : sout) : sst * bool :=
   | SGet r0 ks, SVals vs =>
       match a_get (committed s) r0 with
       | Some (Some m) => (s, vals_eqb vs (map (sget m) ks))
-      | _ => (s, true)
+      | Some None => (s, true)
+      | None =>
+          let waits := match a_get (waiting s) r0 with Some _ => true | None => false end in
+          (s, all_none vs ||
+              (negb (strict && negb waits) &&
+               match a_get (denotes s) r0 with
+               | Some m => vals_eqb vs (map (sget m) ks)
+               | None => true
+               end))
       end
   | SGet _ _, _ => (s, false)
-  | SRestart, _ => (mk_sst (committed s) [], true)
+  | SRestart, _ => (mk_sst (committed s) [] (denotes s), true)
+  | SForeign kvs, SRoot t => (mk_sst (committed s) (waiting s) (learn (denotes s) t (Some (apply_writes [] kvs))), true)
+  | SForeign _, _ => (s, true)
   | SOther, _ => (s, true)
   end.
